@@ -14,6 +14,7 @@ known findings on every run (TLC counterexample + the same history failing on th
 import concurrent.futures as cf
 import json
 import os
+import threading
 
 from lib import evidence, goenv, graph, tlc, tracecheck
 from lib.common import MachineryError, classify_mismatches, log, save_replay
@@ -90,6 +91,13 @@ def _mc(args):
     """One TLC run.  kind: 'print' (check + print every transition, workers=1), 'check', 'expect'."""
     ctx, kind, fam, inv, props, workers, beh_dir = args
     name = "%s-%s" % (kind, fam)
+    if kind == "grid":
+        # checkMemory: TLC evaluates the transcription on the grid (and proves it against the statement's rule)
+        rg = tlc.run(ctx, "C03_MemGrid", "C03_MemGrid.cfg", workers=1, timeout=600, name="memgrid")
+        grid = [o for t, o in rg.prints if t == "VFGRID"]
+        if not rg.ok or len(grid) < 1000:
+            raise MachineryError("C03_MemGrid failed or printed %d points:\n%s" % (len(grid), rg.out[-1500:]))
+        return {"kind": "grid", "fam": fam, "grid": grid}
     r = tlc.run(ctx, "C03_MC", "gen_%s.cfg" % name, cfg_text=cfg_text(fam, inv, props, emit=(kind == "print")),
                 workers=workers, timeout=3000, name=name, keep_prints=(kind == "print"))
     out = {"kind": kind, "fam": fam, "inv": inv, "ok": r.ok, "violated": r.violated, "distinct": r.distinct,
@@ -126,15 +134,36 @@ def run(ctx):
     jobs.append((ctx, "expect", T["concurrent"][0][0], "ReachTwoInFlight", "", 1, beh))
     for fam, wk in T["exhaustive"]:
         jobs.append((ctx, "check", fam, ALL_INV, "AllOrNothing PrioBound", wk, beh))
+    jobs.append((ctx, "grid", "memgrid", "", "", 1, beh))
     # heavier runs first; at most ~4 TLC workers at a time
     jobs.sort(key=lambda j: -j[5])
+    # the harness tests that need nothing from TLC run meanwhile (one after the other, in one thread)
+    side = {}
+
+    def _side():
+        try:
+            # random limit tables x random histories, judged by the ledger alone
+            side["random"] = goenv.run_harness(ctx, PKG, "^TestVerifC03Random$", timeout=2400,
+                                               env={"VERIF_C03_RANDOM": T["random"]})
+            # concurrent scenarios: ledger audits at quiescence + recorded traces
+            side["conc"] = goenv.run_harness(ctx, PKG, "^TestVerifC03Concurrent$", timeout=2400,
+                                             env={"VERIF_C03_TRACES": T["traces"], "VERIF_C03_RACES": T["races"]})
+        except BaseException as e:      # re-raised in the main thread
+            side["error"] = e
+
+    th = threading.Thread(target=_side)
     with cf.ProcessPoolExecutor(max_workers=3 if ctx.tier == "thorough" else 4) as ex:
-        results = list(ex.map(_mc, jobs))
-    # checkMemory: TLC evaluates the transcription on the grid (and proves it against the statement's rule)
-    rg = tlc.run(ctx, "C03_MemGrid", "C03_MemGrid.cfg", workers=1, timeout=600, name="memgrid")
-    grid = [o for t, o in rg.prints if t == "VFGRID"]
-    if not rg.ok or len(grid) < 1000:
-        raise MachineryError("C03_MemGrid failed or printed %d points:\n%s" % (len(grid), rg.out[-1500:]))
+        futs = [ex.submit(_mc, j) for j in jobs]      # the worker processes are forked here, before the thread exists
+        th.start()
+        try:
+            results = [f.result() for f in futs]
+        finally:
+            th.join()
+    if "error" in side:
+        raise side["error"]
+    log("C03: %d TLC runs done at %.0fs" % (len(results), ctx.wall()))
+    grid = [r for r in results if r["kind"] == "grid"][0]["grid"]
+    results = [r for r in results if r["kind"] != "grid"]
 
     states = trans = 0
     mc = []
@@ -168,13 +197,10 @@ def run(ctx):
         json.dump(grid, f)
     resg = goenv.run_harness(ctx, PKG, "^TestVerifC03CheckMemory$", inputs=gdir, timeout=1200)
     div += classify_mismatches(ctx, resg, "checkmemory")
-    # random limit tables x random histories, judged by the ledger alone
-    resr = goenv.run_harness(ctx, PKG, "^TestVerifC03Random$", timeout=2400, env={"VERIF_C03_RANDOM": T["random"]})
+    resr, resc = side["random"], side["conc"]
     div += classify_mismatches(ctx, resr, "random")
-    # concurrent scenarios: ledger audits at quiescence + recorded traces
-    resc = goenv.run_harness(ctx, PKG, "^TestVerifC03Concurrent$", timeout=2400,
-                             env={"VERIF_C03_TRACES": T["traces"], "VERIF_C03_RACES": T["races"]})
     div += classify_mismatches(ctx, resc, "concurrent")
+    log("C03: harness runs done at %.0fs" % ctx.wall())
     accepted, rejected, tstates, ntraces = validate_traces(ctx, resc)
     if rejected:
         # concurrent: a verdict needs the failure to show again with the same seed
